@@ -320,7 +320,7 @@ def run_native(top, registry, state, extra_check=None):
     patches = []
     for u in getattr(top, 'uses', []):
         c2 = registry.contracts.get(u)
-        if c2 is None or c2.requires is None or '<locals>' in c2.target:
+        if c2 is None or (c2.requires is None and not c2.extra.get('native_monitor')) or '<locals>' in c2.target:
             continue
         try:
             modname, qn = c2.target.split(':')
@@ -336,19 +336,57 @@ def run_native(top, registry, state, extra_check=None):
             sig = inspect.signature(orig)
             short = c2.key.split(':')[1]
 
-            def wrapper(*a, **k):
+            # contract kwarg `native_monitor=fn(ghost, args: dict, result, exc)`: ghost bookkeeping of a callee view
+            # (counters of the call's outcome) carried out natively after the real callee ran
+            mon = c2.extra.get('native_monitor')
+
+            def pre(a, k):
+                e = {}
                 try:
                     ba = sig.bind(*a, **k)
                     ba.apply_defaults()
                     e = dict(ba.arguments)
                     e['ghost'] = ghost
-                    vals = flatten(call_clause(c2.requires, e))
-                    for i, ok in enumerate(vals):
-                        if not ok:
-                            rec.violations.append(f'callee-pre#{short}#{i}')
+                    if c2.requires is not None:
+                        vals = flatten(call_clause(c2.requires, e))
+                        for i, ok in enumerate(vals):
+                            if not ok:
+                                rec.violations.append(f'callee-pre#{short}#{i}')
                 except Exception as ex:  # noqa: BLE001
                     rec.violations.append(f'monitor-error {short}: {ex!r}')
-                return orig(*a, **k)
+                return e
+
+            def post(e, result, exc_):
+                if mon is None:
+                    return
+                try:
+                    mon(ghost, e, result, exc_)
+                except Exception as ex:  # noqa: BLE001
+                    rec.violations.append(f'monitor-error {short}: {ex!r}')
+
+            if inspect.iscoroutinefunction(orig):
+
+                async def awrapper(*a, **k):
+                    e = pre(a, k)
+                    try:
+                        r = await orig(*a, **k)
+                    except Exception as ex:  # noqa: BLE001
+                        post(e, None, ex)
+                        raise
+                    post(e, r, None)
+                    return r
+
+                return awrapper
+
+            def wrapper(*a, **k):
+                e = pre(a, k)
+                try:
+                    r = orig(*a, **k)
+                except Exception as ex:  # noqa: BLE001
+                    post(e, None, ex)
+                    raise
+                post(e, r, None)
+                return r
 
             return wrapper
 
@@ -426,6 +464,8 @@ def run_native(top, registry, state, extra_check=None):
         else:
             exc = e
     except Exception as e:  # noqa: BLE001
+        exc = e
+    except asyncio.CancelledError as e:  # a BaseException: a stub may cancel the function under contract
         exc = e
     finally:
         try:
